@@ -80,6 +80,16 @@ pub fn plan_q(states: &[&DbState], only: Option<&[String]>, max_lookups_per_col:
                     Ty::Text => preds.push(Pred::Cmp(c.name.clone(), CmpOp::Eq, Val::Text("absent!".into()))),
                     _ => preds.push(Pred::Cmp(c.name.clone(), CmpOp::Eq, Val::Int(-77))),
                 }
+                // the whole index in one range scan: every entry that should not be there (rows
+                // deleted long ago, stale keys) and every missing one shows up
+                // (not over columns holding TOAST-sized values: predicates on those are KF-C10-02)
+                let all_short = tabs.iter().all(|t| t.def.col_index(&c.name).map_or(true, |i| t.rows.iter().all(|r| r[i].is_null() || short_val(&r[i]))));
+                if all_short {
+                    match c.ty {
+                        Ty::Text => preds.push(Pred::Cmp(c.name.clone(), CmpOp::Ge, Val::Text(String::new()))),
+                        _ => preds.push(Pred::Cmp(c.name.clone(), CmpOp::Ge, Val::Int(-2_000_000_000))),
+                    }
+                }
                 if let (Some(lo), Some(hi)) = (sampled.first(), sampled.last()) {
                     preds.push(Pred::Cmp(c.name.clone(), CmpOp::Ge, sampled[sampled.len() / 2].clone()));
                     preds.push(Pred::Between(c.name.clone(), lo.clone(), hi.clone()));
